@@ -93,9 +93,18 @@ class AoefSim:
         self.sim_span = [self.now, self.now]
         self.states = set()
         self.skew = {}  # node -> seconds its clock is off
+        self.memdocs = {}  # in-memory AOEF documents kept by a node
         self.known = []
         self.known_hits = Counter()
         os.makedirs(run_dir, exist_ok=True)
+        # a real symbolic link below the relative audio root "rel/aud" (nodes
+        # work in the run directory): rel/aud/latest -> 2023. A recording at
+        # rel/aud/latest/x.wav is, lexically, latest/x.wav relative to the root
+        try:
+            os.makedirs(os.path.join(run_dir, "rel", "aud", "2023"), exist_ok=True)
+            os.symlink("2023", os.path.join(run_dir, "rel", "aud", "latest"))
+        except OSError:
+            pass
 
     # ------------------------------------------------------------ plumbing
 
@@ -239,6 +248,10 @@ class AoefSim:
             self.do_copy(op)
         elif kind == "merge":
             self.do_merge(op)
+        elif kind == "mem_save":
+            self.do_mem_save(op)
+        elif kind == "mem_load":
+            self.do_mem_load(op)
         elif kind == "restart":
             self.restart(op["node"])
             self.record(op, "ok")
@@ -278,6 +291,92 @@ class AoefSim:
         self.record(op, "ok", doc=sha(raw))
         self.trace.append((op["op"], self.files[dst].get("status")))
         self.probes.hit(f"file:{op['op']}-by-another-tool")
+
+    # ------------------------------------------- in-memory documents (to_aeof)
+
+    def do_mem_save(self, op):
+        spec = self.worlds.get(op["k"])
+        if spec is None:
+            return self.record(op, "skipped")
+        n = op["node"]
+        node = self.node(n)
+        key = specs.spec_key(spec)
+        src = {"world": key, "root": op["root"]}
+        if key not in self.node_worlds[n]:
+            src["spec"] = spec
+        described = node.call("describe", src=src)
+        if described["outcome"] != "value":
+            raise HarnessError(f"could not build the object: {described}")
+        self.node_worlds[n].add(key)
+        src.pop("spec", None)
+        audio = op.get("audio")
+        paths = recordings_of(described["canon"])
+        inside_all = audio is None or all(is_inside(q, audio) for q in paths.values())
+        reply = node.call("mem_save", src=src, doc=op["d"], audio_dir=audio,
+                          audio_as=op.get("audio_as", "str"), _env=self.env(None, n))
+        oclass = reply["outcome"] if reply["outcome"] != "raised" else f"raised:{reply['exc']}"
+        self.record(op, oclass, doc=sha(reply["text"]) if "text" in reply else None)
+        self.trace.append(("mem_save", described["type"], oclass, bool(audio)))
+        if not inside_all:
+            if reply["outcome"] == "ack":
+                self.violate("C18", "C18:outside-accepted",
+                             f"to_aeof accepted a recording outside audio_dir={audio!r}")
+            return
+        if reply["outcome"] != "ack":
+            self.violate("C01", f"C01:save-raised:{reply.get('exc')}",
+                         f"to_aeof of a valid {described['type']} raised: {reply.get('msg')}")
+            return
+        entry = {
+            "status": "clean", "expect": described["canon"],
+            "type": described["type"], "audio": audio,
+            "reach": described["reach"], "cycles": 0, "node": n, "loads": 0,
+        }
+        self.memdocs[op["d"]] = entry
+        self.probes.hit("mem:to_aeof")
+        self.check_document(None, reply["text"].encode("utf-8"), entry)
+
+    def do_mem_load(self, op):
+        entry = self.memdocs.get(op["d"])
+        if entry is None:
+            return self.record(op, "skipped")
+        n = entry["node"]
+        node = self.nodes.get(n)
+        if node is None or not node.alive:
+            return self.record(op, "skipped")
+        audio = op.get("audio")
+        reply = node.call("mem_load", doc=op["d"], handle=op["h"], audio_dir=audio,
+                          audio_as=op.get("audio_as", "str"), _env=self.env(None, n))
+        if reply["outcome"] == "skipped":
+            return self.record(op, "skipped")  # the node was restarted
+        oclass = reply["outcome"] if reply["outcome"] != "raised" else f"raised:{reply['exc']}"
+        self.record(op, oclass,
+                    obj=sha(jdump(reply["canon"])) if reply["outcome"] == "value" else None)
+        entry["loads"] += 1
+        self.trace.append(("mem_load", entry["type"], oclass,
+                           _reloc(entry["audio"], audio), min(entry["loads"], 3)))
+        if reply["outcome"] != "value":
+            self.violate("C01", f"C01:load-raised:{reply.get('exc')}",
+                         f"to_soundevent of a document made by to_aeof raised: {reply.get('msg')}")
+            return
+        self.checked_loads += 1
+        self.probes.hit("mem:to_soundevent-checked")
+        if entry["loads"] >= 2:
+            self.probes.hit("mem:same-document-loaded-again")
+        self.handles[op["h"]] = {
+            "node": n, "alive": True, "canon": reply["canon"],
+            "type": reply["type"], "audio": audio, "cycles": 0,
+        }
+        expected = remap(entry["expect"], entry["audio"], audio)
+        if self.active("C18"):
+            self.check_loaded_paths(entry, audio, reply["canon"], expected)
+        if self.active("C01"):
+            for where, detail in canon_diffs(expected, reply["canon"]):
+                self.violate(
+                    "C01", f"C01:field:{where}",
+                    f"{entry['type']} through to_aeof (audio_dir={entry['audio']!r}) "
+                    f"and to_soundevent (audio_dir={audio!r}), load #{entry['loads']} "
+                    f"of the same in-memory document: {detail}",
+                )
 
     def do_merge(self, op):
         """A new collection assembled on a node from two loaded ones."""
@@ -802,6 +901,7 @@ class _Gen:
         self.worlds = {}  # k -> (struct_seed, value_seed, spec_cfg_name)
         self.next_h = 0
         self.last_spec = {}
+        self.next_d = 0
         self.saved = {}  # path -> audio dir used (gen-side guess)
         self.loaded = []  # (h, node, audio)
 
@@ -1137,6 +1237,30 @@ class _Gen:
         self.resave(h, audio=audio, p=p3, fault=None)
         self.load(p3, audio=audio)
 
+    def pat_memdoc(self):
+        """to_aeof once, to_soundevent several times on the same in-memory
+        document, under different audio directories."""
+        k = self.ensure_world()
+        n = self.node()
+        d = self.next_d
+        self.next_d += 1
+        audio = self.audio_for_save(k)
+        self.emit({"op": "mem_save", "k": k, "root": self.root(), "node": n,
+                   "d": d, "audio": audio, "audio_as": self.how()})
+        for _ in range(self.rng.randint(1, 3)):
+            h = self.next_h
+            self.next_h += 1
+            r = self.rng.random()
+            load_audio = (
+                audio if r < 0.4
+                else (None if r < 0.6 else self.rng.choice(specs.AUDIO_ROOTS))
+            ) if audio is not None else (
+                None if r < 0.7 else self.rng.choice(specs.AUDIO_ROOTS)
+            )
+            self.emit({"op": "mem_load", "d": d, "h": h, "audio": load_audio,
+                       "audio_as": self.how()})
+            self.loaded.append((h, n, load_audio))
+
     def pat_restart(self):
         k = self.ensure_world()
         n = self.node()
@@ -1202,6 +1326,7 @@ PATTERNS = {
         ("pat_relocate", 1),
         ("pat_copy", 2),
         ("pat_merge", 2),
+        ("pat_memdoc", 1),
         ("pat_random", 4),
     ],
     "C02": [
@@ -1216,6 +1341,7 @@ PATTERNS = {
         ("pat_overwrite", 1),
         ("pat_copy", 1),
         ("pat_merge", 3),
+        ("pat_memdoc", 1),
         ("pat_random", 3),
     ],
     "C18": [
@@ -1227,6 +1353,7 @@ PATTERNS = {
         ("pat_fault_heal", 1),
         ("pat_crash_then_save", 1),
         ("pat_copy", 1),
+        ("pat_memdoc", 2),
         ("pat_random", 2),
     ],
 }
